@@ -383,12 +383,18 @@ class IndexSeq:
 
 
 class Gather:
-    """x[mask] / x[np.where(mask)]: the elements of x selected by mask, as a 1-D array of
-    unknown length; only supports what the verified code does with it."""
+    """x[mask] / x[np.where(mask)]: the elements of a 1-D array selected by a boolean mask.  Kept aligned
+    with the source indexing: value(i) is meaningful where mask(i) holds.  Supports what the verified code
+    does with it: being passed on, mapped elementwise, and scattered back with the same index set."""
 
-    def __init__(self, src, mask):
-        self.src = src
-        self.mask = mask
+    def __init__(self, value, mask):
+        self.value = value      # callable: source index -> scalar
+        self.mask = mask        # Arr (1-D bool), snapshot
+        self.dtype = 'float'
+
+    def map(self, f):
+        v = self.value
+        return Gather(lambda i: f(v(i)), self.mask)
 
 
 def expand_index(idx, ndim):
@@ -487,7 +493,10 @@ def fancy_get(ctx, a, ia):
 
 
 def mask_gather(ctx, a, mask):
-    raise Unsupported('boolean-mask gather')
+    if a.ndim != 1 or mask.ndim != 1:
+        raise Unsupported('boolean-mask gather of rank > 1')
+    snap = a.snapshot()
+    return Gather(lambda i: snap.at((i,)), mask.snapshot())
 
 
 def view_inverse(ctx, view, b):
@@ -528,6 +537,8 @@ def setitem(ctx, a, idx, value, op=None):
         raise R('ValueError', 'assignment destination is read-only')
     if isinstance(idx, WhereIdx):
         idx = idx.mask
+    if isinstance(idx, Arr) and idx.dtype == 'bool' and isinstance(value, Gather):
+        return gather_scatter(ctx, a, idx, value, op)
     if isinstance(idx, Arr) and idx.dtype == 'bool':
         return mask_set(ctx, a, idx, value, op)
     view = getview(ctx, a, idx)
@@ -611,6 +622,28 @@ class GuardedSum:
         ind = S.ite(cond, 1, 0)
         nind = S.ite(cond, 0, 1)
         return S.add(S.mul(a, ind), S.mul(b, nind))
+
+
+def gather_scatter(ctx, a, mask, g, op=None):
+    """a[mask] = g where g was gathered with the same index set: position by position."""
+    if op is not None or a.ndim != 1:
+        raise Unsupported('scatter form')
+    ms, gm = mask.snapshot(), g.mask
+    n = a.shape[0]
+    q = z3.Int(ctx._name('gs'))
+    same = z3.ForAll([q], z3.Implies(z3.And(q >= 0, q < S.z(n)), S.z(S.truth(ms.at((q,)))) == S.z(S.truth(gm.at((q,))))))
+    ctx.require('scatter uses the index set of the gather', same, exc='ValueError')
+    cell = a.cell
+    old = cell.get
+    me = a
+    dt = cell.dtype
+
+    def new_get(b):
+        cond, vidx = view_inverse(ctx, me, b)
+        m = S.truth(ms.at(vidx))
+        return _ite_any(S.and_(cond, m), cast_scalar(g.value(vidx[0]), dt), old(b))
+    cell.get = new_get
+    ctx.write_event(cell, 'scatter')
 
 
 def mask_set(ctx, a, mask, value, op=None):
